@@ -1012,6 +1012,27 @@ fn step(w: &mut World, op: &Op, st: &mut Stats) -> Result<(), (&'static str, Str
                     }
                     return Ok(());
                 }
+                8 | 9 => {
+                    // vectors of different length are never equal and never close, even when one is a
+                    // prefix of the other (8: one element dropped, 9: one appended; both directions)
+                    let vx = Vector::new(mo.d.clone());
+                    let mut yd = mo.d.clone();
+                    if *kind == 8 {
+                        yd.pop();
+                    } else {
+                        yd.push(if delta.0 > 0.1 { 0.0 } else { mo.d[mo.d.len() - 1] });
+                    }
+                    let vy = Vector::new(yd);
+                    st.inc("cmp.prefix_vectors");
+                    for (a, b) in [(&vx, &vy), (&vy, &vx)] {
+                        let ct = catch(|| a.close_to(b, tol.0)).map_err(|e| ("valid_rejected", format!("Vector::close_to panicked: {}", e)))?;
+                        let eq = catch(|| a == b).map_err(|e| ("valid_rejected", format!("Vector == panicked: {}", e)))?;
+                        if ct || eq {
+                            return Err(("comparison_wrong", format!("vectors of length {} and {} (one a prefix of the other): close_to = {}, == = {}", a.len(), b.len(), ct, eq)));
+                        }
+                    }
+                    return Ok(());
+                }
                 6 | 7 => {
                     // any magnitude, down to the subnormals: non-zero values of opposite sign are never
                     // close (6); values of the same sign are close exactly when their relative difference
@@ -1403,7 +1424,7 @@ fn gen_op(r: &mut Sm, tr: &Tracker, weights: &[u32; 6], p_fault: f64, special: b
         _ => match r.below(4) {
             0 => Op::Predicates { m },
             1 => Op::EqClose { a: m, b: r.below(tr.ms.len().max(1) as u64) as usize, tol: Fb(*r.pick(&[1e-6, 1e-9, 1e-12])) },
-            _ => Op::CmpPerturbed { m, kind: r.below(8) as u8, k: r.usize(0, 63), delta: Fb(*r.pick(&[1e-3, 1e-2, 0.5, -1e-3, 1e-13])), tol: Fb(*r.pick(&[1e-6, 1e-9])) },
+            _ => Op::CmpPerturbed { m, kind: r.below(10) as u8, k: r.usize(0, 63), delta: Fb(*r.pick(&[1e-3, 1e-2, 0.5, -1e-3, 1e-13])), tol: Fb(*r.pick(&[1e-6, 1e-9])) },
         },
     }
 }
@@ -1629,7 +1650,7 @@ impl Prop for C15 {
     }
     fn expected_counters(_tier: Tier) -> Vec<String> {
         let mut v: Vec<String> = ALL_OPS.iter().map(|o| format!("op.{}", o)).collect();
-        for k in ["outcome.ok", "outcome.rejected", "fault.reject", "fault.callback_panic", "fault.fill_alloc", "fault.scribble_free", "cmp.opposite_sign", "cmp.scaled", "cmp.same_buffer_other_shape", "cmp.around_zero"] {
+        for k in ["outcome.ok", "outcome.rejected", "fault.reject", "fault.callback_panic", "fault.fill_alloc", "fault.scribble_free", "cmp.opposite_sign", "cmp.scaled", "cmp.same_buffer_other_shape", "cmp.around_zero", "cmp.prefix_vectors", "cmp.opposite_sign_tiny", "cmp.scaled_tiny"] {
             v.push(k.to_string());
         }
         for f in Fill::ALL {
